@@ -89,7 +89,7 @@ func c13StatusUpdate(c *core.Ctx, rule string) {
 			return args[k-1]
 		}
 		ok := okShape && len(set) == 2 && arg(set["STATUS"]) == "newStatus" && arg(set["UPDATED_AT"]) == "updatedAt" &&
-			len(where) == 1 && strings.HasSuffix(arg(where["CERTIFICATE_ID"]), "Hash).String(certificateID)")
+			len(where) == 1 && strings.HasSuffix(arg(where["CERTIFICATE_ID"]), "Hash).Hex(certificateID)")
 		c.Decide(ok, rule, "aggsender/db.(*AggSenderSQLStorage).UpdateCertificateStatus#statement", i.Pos(),
 			fmt.Sprintf("sets status←newStatus, updated_at←updatedAt for exactly the row certificate_id = certificateID, unconditionally: SET %v WHERE %v args %v", set, where, args))
 	})
